@@ -17,6 +17,8 @@ import ModVerif.Proofs.EditMoreStartW
 import ModVerif.Proofs.EditMoreKeepF
 import ModVerif.Proofs.EditWorkKeepB
 import ModVerif.Proofs.EditReparseF
+import ModVerif.Proofs.EditGoodBlocksC
+import ModVerif.Proofs.EditWorkReparseD
 namespace ModVerif.Props.C08
 open ModVerif ModVerif.EditSpec ModVerif.Modfile
 
@@ -438,6 +440,83 @@ example :
     Edit.outcomeIs (Edit.sessionMod src ops) (fun o => Edit.finalTreeB o.tree &&
       o.reparsed != some (run stdValidity o.start (ops.map Edit.Op.toSpec)) &&
       (o.reparsed.map (·.require)) == some (run stdValidity o.start (ops.map Edit.Op.toSpec)).require) = true := by
+  decide +kernel
+
+/-- **refines_abs, the re-parse half (partial 2).**  As `refines_abs_reparse_partial`, with the comment placement
+    `Edit.comShapeB o.tree` as the ONLY hypothesis on the final tree: the block-verb half of `Edit.finalTreeB` (no `go (` /
+    `toolchain (` block) is an invariant of statically valid sessions from a strictly parsed file
+    (C15 `goodBlocks_invariant_session`, Proofs/EditGoodBlocks{A,B,C}.lean), so it is derived, not assumed.
+    What keeps the name `_partial`: `comShapeB` (whole-line comments are `//` texts, a blank-line placeholder only inside a
+    block, not first, not doubled; at most one end-of-line comment per node; no header comment) is NOT an invariant —
+    SortBlocks / Cleanup may move a blank-line placeholder to the top of a block (`C15_violated_retract_blank_line_dropped`);
+    removing it needs C02's rendering lemma for trees with misplaced placeholders. -/
+theorem refines_abs_reparse_partial2 (file : Bytes) (ops : List Edit.Op) (o : Edit.Outcome) (f : File)
+    (hf : parseStrict (B "go.mod") file none = .ok f) (hk : Edit.WellFormedKeys f) (hs : Edit.NoBlockSuffix f.syn)
+    (hm : Edit.MarkersSettable f.syn.stmts) (hstart : Edit.AbsOK (Edit.absOf f)) (hv : Edit.StaticValid false ops)
+    (hmod : ∀ op ∈ ops, Edit.IsModOp op) (hargs : ∀ op ∈ ops, Edit.ArgsOK op.toSpec)
+    (h : Edit.sessionMod file ops = some o) (hcom : Edit.comShapeB o.tree = true) :
+    ∃ r, o.reparsed = some r ∧ Edit.AbsPerm r (run stdValidity o.start (ops.map Edit.Op.toSpec)) ∧
+      o.res = runOk stdValidity o.start (ops.map Edit.Op.toSpec) := by
+  obtain ⟨r, hr, hp, hrel⟩ := Edit.typed_eq_reparse_session4 file ops o f hf hk hs hm hstart hv hmod hargs h hcom
+  have h3 := (sessionMod_refines_wellformed file ops o f hf hk (Edit.StaticValid.validArgs ops false hv hmod) h).2.2
+  exact ⟨r, hr, hp.trans (Edit.absPerm_of_rel hrel), h3⟩
+
+/-- non-vacuity: a session with DropGoStmt + AddGoStmt (the dead `go` line is still in the tree when the new one is added —
+    the case in which a `go (` block could arise, and does not), both bulk setters and SortBlocks; the start conditions, static
+    validity and readable arguments hold, the outcome passes `comShapeB`, and the re-parsed requirements are the step table's -/
+example :
+    let src := B "module example.com/m\n\ngo 1.21\n\nrequire (\n\texample.com/a v1.0.0 // indirect\n\t// keep\n\texample.com/b v1.2.3\n)\n\nexclude (\n\texample.com/z v1.0.0\n\texample.com/y v1.0.0\n)\n"
+    let ops : List Edit.Op := [.dropGo, .addGo (B "1.22"), .addRequire (B "example.com/a") (B "v1.5.0"),
+      .addExclude (B "example.com/z") (B "v1.1.0"), .sortBlocks,
+      .cleanup, .setRequireSeparateIndirect [⟨B "example.com/a", B "v1.6.0", false⟩, ⟨B "example.com/c", B "v0.1.0", true⟩] false,
+      .cleanup]
+    (match parseStrict (B "go.mod") src none with
+     | .ok f => Edit.startOKb f && f.syn.stmts.all (fun x => match x with
+         | .lineBlock b => b.comments.suffix.isEmpty
+         | _ => true) && decide (Edit.MarkersSettable f.syn.stmts) && Edit.absOKB (Edit.absOf f)
+     | .error _ => false) &&
+    Edit.staticValidB false ops && ops.all (fun op => Edit.argsOKB op.toSpec) &&
+    Edit.outcomeIs (Edit.sessionMod src ops) (fun o => Edit.comShapeB o.tree &&
+      (o.reparsed.map (·.require)) == some (run stdValidity o.start (ops.map Edit.Op.toSpec)).require &&
+      (o.reparsed.map (·.go)) == some (some (B "1.22"))) = true := by
+  decide +kernel
+
+/-- **refines_abs, the re-parse half, go.work (partial).**  For every go.work text accepted by `ParseWork` whose directives
+    have non-empty keys and readable values (`Edit.W.AbsOKW`: readable `use` directories and replace paths, valid replace
+    versions, go / toolchain / godebug texts that need no quotes — C02's "well-formed"), without block suffix comment, and every
+    statically valid session of go.work operations (`Edit.StaticValidW`: SetUse directly after a Cleanup, distinct non-empty
+    directories) with readable arguments (`Edit.W.ArgsOKW`): if the session has an outcome (it always runs to completion:
+    C15 `nilDeref_unreachable_work`), `ParseWork` of the formatted file succeeds and holds exactly what the step table predicts
+    from the starting file — go / toolchain equal, godebug / use / replace equal as multisets (`Edit.W.AbsPermW`) — and each
+    operation succeeds exactly when the table says so.  = `sessionWork_refines` composed with C15
+    `typed_eq_reparse_work_partial2`.  What keeps the name `_partial`: the comment placement `Edit.comShapeB o.tree` of the
+    FINAL tree (not an invariant: see `refines_abs_reparse_partial2`); the block-verb condition is derived. -/
+theorem refines_abs_reparse_work_partial (file : Bytes) (ops : List Edit.Op) (o : Edit.Outcome) (f : WorkFile)
+    (hf : parseWork (B "go.work") file none = .ok f) (hk : Edit.WorkKeys f) (hs : Edit.NoBlockSuffix f.syn)
+    (hstart : Edit.W.AbsOKW (Edit.absOfWork f)) (hv : Edit.StaticValidW false ops)
+    (hw : ∀ op ∈ ops, Edit.IsWorkOp op) (hargs : ∀ op ∈ ops, Edit.W.ArgsOKW op.toSpec)
+    (h : Edit.sessionWork file ops = some o) (hcom : Edit.comShapeB o.tree = true) :
+    ∃ r, o.reparsed = some r ∧ Edit.W.AbsPermW r (run stdValidity o.start (ops.map Edit.Op.toSpec)) ∧
+      o.res = runOk stdValidity o.start (ops.map Edit.Op.toSpec) := by
+  obtain ⟨r, hr, hp, hrel, hres⟩ := Edit.W.typed_eq_reparse_work_session2 file ops o f hf hk hs hstart hv hw hargs h hcom
+  exact ⟨r, hr, hp.trans (Edit.W.absPermW_of_rel hrel), hres⟩
+
+/-- non-vacuity: a parsed go.work with a `use` block; start conditions, static validity, go.work operations and readable
+    arguments hold; the outcome passes `comShapeB`, and the re-parsed `use` list is the step table's up to order -/
+example :
+    let src := B "// c\n\ngo 1.21\n\nuse (\n\t./a\n\t\"./b c\" // note\n)\n\nreplace example.com/a => ../a\n\ngodebug x=y\n"
+    let ops : List Edit.Op := [.addUse (B "./d") [], .dropUse (B "./a"), .addGo (B "1.22"), .cleanup,
+       .setUse [(B "./z", B "m"), (B "./b c", []), (B "./e", [])] true, .addReplace (B "x.y/z") [] (B "../z") [], .sortBlocks]
+    (match parseWork (B "go.work") src none with
+     | .ok f => Edit.workStartOKb f && f.syn.stmts.all (fun x => match x with
+         | .lineBlock b => b.comments.suffix.isEmpty
+         | _ => true) && Edit.W.absOKWB (Edit.absOfWork f)
+     | .error _ => false) &&
+    Edit.staticValidWB false ops && ops.all Edit.isWorkOpB && ops.all (fun op => Edit.W.argsOKWB op.toSpec) &&
+    Edit.outcomeIs (Edit.sessionWork src ops) (fun o => Edit.comShapeB o.tree &&
+      (o.reparsed.map (·.use)) == some [B "./b c", B "./e", B "./z"] &&
+      (run stdValidity o.start (ops.map Edit.Op.toSpec)).use == [B "./b c", B "./z", B "./e"] &&
+      (o.reparsed.map (·.go)) == some (some (B "1.22"))) = true := by
   decide +kernel
 
 end ModVerif.Props.C08
